@@ -57,7 +57,8 @@ def d1(ctx, rep):
     rep.rule('D1.install', "the installed state is the model's own random_state")
     rep.rule('D1.restore', 'every exit after the install (normal or exceptional) passes np.random.set_state(original)')
     rep.rule('D1.writeback', 'the advanced state is captured before the restore and handed to the model setter on every exit')
-    fn = prog.func(SET_RANDOM_STATE)
+    from ..inline import inlined_view
+    fn = inlined_view(ctx, prog.func(SET_RANDOM_STATE))
     rep.check('D1.cm', fn, fn.node.name, any(d.endswith('contextmanager') for d in fn.decorators)
               and any(isinstance(n, ast.Yield) for n in walk_no_nested(fn.node)),
               'decorated @contextlib.contextmanager and yields', construct='set_random_state')
@@ -364,7 +365,14 @@ def d3_d4(ctx, rep):
         fn = prog.functions[q]
         for s in sites:
             if s.kind == 'write-state':
-                rep.check('D3.state', fn, s.call, q == SET_RANDOM_STATE,
+                inside = q == SET_RANDOM_STATE
+                if not inside and fn.cls is None and fn.outer is None and fn.name.startswith('_'):
+                    # a private helper of the context manager: every call of it in the package is made by set_random_state itself
+                    callers = {f.qualname for f in prog.functions.values() for c_, tg in ctx.cg.callees(f) if any(t.kind == 'proj' and t.fn is fn for t in tg)}
+                    refs = [x for f in prog.functions.values() for x in ast.walk(f.node) if isinstance(x, ast.Name) and x.id == fn.name and isinstance(x.ctx, ast.Load)]
+                    calls = [x for f in prog.functions.values() for x in ast.walk(f.node) if isinstance(x, ast.Call) and isinstance(x.func, ast.Name) and x.func.id == fn.name]
+                    inside = callers == {SET_RANDOM_STATE} and len(refs) == len(calls)
+                rep.check('D3.state', fn, s.call, inside,
                           'global-state write inside the context manager',
                           f'{s.what} writes the global generator state outside utils.set_random_state')
             elif s.kind == 'entropy':
